@@ -165,7 +165,7 @@ P = "crate::cpr::verif_cpr::"
 PM_STUB = "crate::cpr::positive_mod => crate::cpr::verif_cpr::positive_mod_contract"
 add("cpr_nl", "adsb_deku", P + "obl_cpr_nl", props=["C05", "C01", "C20"], stubs=[], unwind=60, features=("std", "alloc"),
     domain="all 2^64 f64 values incl. NaN and infinities", functions=["cpr::cpr_nl"])
-add("cpr_pos_lat", "adsb_deku", P + "obl_get_position", args="1", props=["C05", "C01", "C20"], stubs=[PM_STUB], unwind=60, features=("std", "alloc"),
+add("cpr_pos_lat", "adsb_deku", P + "obl_get_position", args="1", props=["C05", "C01"], stubs=[PM_STUB], unwind=60, features=("std", "alloc"), tier="thorough",
     domain="all parities x all 2^34 latitude pairs, longitudes fixed (51372, 50194)", timeout=1800,
     functions=["cpr::get_position", "cpr::get_lat_lon", "cpr::cpr_nl"], bounded="longitudes fixed to one pair (the latitude / consistency clauses do not depend on them)")
 add("cpr_pos_full", "adsb_deku", P + "obl_get_position", args="0", props=["C05", "C01"], stubs=[PM_STUB], unwind=60, tier="thorough",
